@@ -14,16 +14,32 @@
    AtAppend  self._objects.append(obj)
    AtReturn  return obj
 
+     def teardown_factory(self):              (REPAIRED code, fixes/F21: every executed line is a step, also try: / except)
+   TdInit            first_failure = None
+   TdFor i ff        for obj in self._objects:            # list iterator with index i: sees elements appended meanwhile
+   TdTry i o ff          try:
+   TdBody i o ff             self.teardown_object(obj)     # user code: returns, raises an Exception, or raises a BaseException
+   TdExcept i o ff       except Exception as excp:         #   that is not an Exception (KeyboardInterrupt, SystemExit: TdExceptBase)
+   TdIfNone i o ff           if first_failure is None:
+   TdAssign i o                  first_failure = excp
+   TdIfFinal ff      if first_failure is not None:        # reached when the iterator is exhausted; threads may still append
+   TdRaise e             raise first_failure
+   TdDone / TdRaised e / TdAborted o : teardown_factory has returned / has raised first_failure at the end / was left by a
+   BaseException that `except Exception` does not catch (the line event of the except line still occurs: TdExceptBase).
+   [ff] is the local first_failure; an exception is identified with the object whose teardown_object call raised it.
+   (get_object: its try: / except AttributeError: lines touch nothing and are merged into the following step, as before.)
+
+   The code BEFORE the repair (kept for C15_torn_down_after_raise_unfixed_refuted only, see step_main_unfixed below):
      def teardown_factory(self):
-   TdFor i   for obj in self._objects:            # list iterator with index i: sees elements appended meanwhile
-   TdBody    self.teardown_object(obj)            # an exception leaves the loop (TdRaised)
+   TdFor i _         for obj in self._objects:
+   TdBody i o _          self.teardown_object(obj)        # an exception leaves the loop (TdRaised)
 
    Python                                       | here
    ---------------------------------------------+--------------------------------------------------------------
    threading.local()  (self._local.object)      | locals : tid -> option obj        (per-thread map: ASSUMED semantics)
    self._objects / list.append (atomic, GIL)    | objects : list obj, appended at the end in one step (ASSUMED atomic)
    setup_object()  (user code, may raise)       | fresh object identity [next]; raises when cfg says so
-   teardown_object(obj) (user code, may raise)  | recorded in [torn]; raises when cfg says so
+   teardown_object(obj) (user code, may raise)  | recorded in [torn]; outcome td_outcome cfg obj : TdOk | TdExc | TdBaseExc
    ThreadedFactory.get_object                   | step_thread
    ThreadedFactory.teardown_factory             | step_main (called once: ScheduledFixtures._teardown_fixture calls
                                                 |   result.teardown() and then deletes the result)
@@ -52,14 +68,27 @@ Inductive pc :=
 
 Inductive tdpc :=
 | TdNotCalled
-| TdFor (i : nat)
-| TdBody (i : nat) (o : obj)
+| TdInit
+| TdFor (i : nat) (ff : option obj)
+| TdTry (i : nat) (o : obj) (ff : option obj)
+| TdBody (i : nat) (o : obj) (ff : option obj)
+| TdExcept (i : nat) (o : obj) (ff : option obj)
+| TdExceptBase (o : obj) (ff : option obj)
+| TdIfNone (i : nat) (o : obj) (ff : option obj)
+| TdAssign (i : nat) (o : obj)
+| TdIfFinal (ff : option obj)
+| TdRaise (e : obj)
 | TdDone
-| TdRaised.
+| TdRaised (e : obj)
+| TdAborted (o : obj).
 
 (* user code outcomes: setup_fails t k = the call of setup_object on thread t made after k earlier failures on that
-   thread raises (a success ends the attempts of a thread); td_fails o = teardown_object(o) raises *)
-Record cfg := { setup_fails : tid -> nat -> bool; td_fails : obj -> bool }.
+   thread raises (a success ends the attempts of a thread); td_outcome o = what teardown_object(o) does: returns,
+   raises an Exception, raises a BaseException that is not an Exception *)
+Inductive td_result := TdOk | TdExc | TdBaseExc.
+Record cfg := { setup_fails : tid -> nat -> bool; td_outcome : obj -> td_result }.
+(* teardown_object(o) raises (anything) *)
+Definition td_fails (c : cfg) (o : obj) : bool := match td_outcome c o with TdOk => false | _ => true end.
 
 Record state := {
   pcs : tid -> pc;
@@ -128,15 +157,26 @@ Definition set_td (s : state) (d : tdpc) (tn : list obj) : state :=
 
 Definition step_main (c : cfg) (s : state) : state :=
   match td s with
-  | TdNotCalled => set_td s (TdFor 0) (torn s)
-  | TdFor i =>
+  | TdNotCalled => set_td s TdInit (torn s)
+  | TdInit => set_td s (TdFor 0 None) (torn s)
+  | TdFor i ff =>
       match nth_error (objects s) i with
-      | Some o => set_td s (TdBody i o) (torn s)
-      | None => set_td s TdDone (torn s)
+      | Some o => set_td s (TdTry i o ff) (torn s)
+      | None => set_td s (TdIfFinal ff) (torn s)
       end
-  | TdBody i o => set_td s (if td_fails c o then TdRaised else TdFor (S i)) (torn s ++ [o])
+  | TdTry i o ff => set_td s (TdBody i o ff) (torn s)
+  | TdBody i o ff =>
+      set_td s (match td_outcome c o with TdOk => TdFor (S i) ff | TdExc => TdExcept i o ff | TdBaseExc => TdExceptBase o ff end)
+             (torn s ++ [o])
+  | TdExcept i o ff => set_td s (TdIfNone i o ff) (torn s)
+  | TdExceptBase o _ => set_td s (TdAborted o) (torn s)
+  | TdIfNone i o ff => set_td s (match ff with None => TdAssign i o | Some _ => TdFor (S i) ff end) (torn s)
+  | TdAssign i o => set_td s (TdFor (S i) (Some o)) (torn s)
+  | TdIfFinal ff => set_td s (match ff with None => TdDone | Some e => TdRaise e end) (torn s)
+  | TdRaise e => set_td s (TdRaised e) (torn s)
   | TdDone => s
-  | TdRaised => s
+  | TdRaised _ => s
+  | TdAborted _ => s
   end.
 
 Inductive actor := Th (t : tid) | Main.
@@ -152,9 +192,43 @@ Definition run (c : cfg) (sch : list actor) : state := run_from c init sch.
 
 (* a thread is between the return of setup_object and the append *)
 Definition in_flight (s : state) (t : tid) (o : obj) : Prop := pcs s t = AtStore o \/ pcs s t = AtAppend o.
-(* the step [Main] executed after [sch] is the one in which teardown_factory returns normally *)
-Definition teardown_returns_after (c : cfg) (sch : list actor) : Prop :=
-  td (run c sch) <> TdDone /\ td (run c (sch ++ [Main])) = TdDone.
+(* teardown_factory has returned, or has raised first_failure at its last line *)
+Definition td_finished (d : tdpc) : bool := match d with TdDone | TdRaised _ => true | _ => false end.
+(* teardown_factory is past its loop: the for line has found the iterator exhausted *)
+Definition after_loop (d : tdpc) : bool :=
+  match d with TdIfFinal _ | TdRaise _ | TdDone | TdRaised _ => true | _ => false end.
+(* the step [Main] executed after [sch] is the one in which teardown_factory returns or raises first_failure *)
+Definition teardown_finishes_after (c : cfg) (sch : list actor) : Prop :=
+  td_finished (td (run c sch)) = false /\ td_finished (td (run c (sch ++ [Main]))) = true.
+(* the step [Main] executed after [sch] is the for line finding the iterator exhausted *)
+Definition teardown_loop_ends_after (c : cfg) (sch : list actor) : Prop :=
+  after_loop (td (run c sch)) = false /\ after_loop (td (run c (sch ++ [Main]))) = true.
+(* at every moment of the run [sch] (after its first n steps, any n) at which teardown_factory is past its loop, no thread
+   is between the return of setup_object and the append *)
+Definition quiet_after_loop (c : cfg) (sch : list actor) : Prop :=
+  forall n t o, after_loop (td (run c (firstn n sch))) = true -> ~ in_flight (run c (firstn n sch)) t o.
+
+(* ------------------------------------------------------------------ the code BEFORE the repair (fixes/F21)
+   teardown_factory was:   for obj in self._objects:            TdFor i _
+                               self.teardown_object(obj)        TdBody i o _ ; any exception leaves the loop: TdRaised o
+   Only C15_torn_down_after_raise_unfixed_refuted speaks about these definitions. *)
+Definition step_main_unfixed (c : cfg) (s : state) : state :=
+  match td s with
+  | TdNotCalled => set_td s (TdFor 0 None) (torn s)
+  | TdFor i _ =>
+      match nth_error (objects s) i with
+      | Some o => set_td s (TdBody i o None) (torn s)
+      | None => set_td s TdDone (torn s)
+      end
+  | TdBody i o _ => set_td s (if td_fails c o then TdRaised o else TdFor (S i) None) (torn s ++ [o])
+  | _ => s
+  end.
+Definition step_unfixed (c : cfg) (s : state) (a : actor) : state :=
+  match a with
+  | Th t => step_thread c t s
+  | Main => step_main_unfixed c s
+  end.
+Definition run_unfixed (c : cfg) (sch : list actor) : state := fold_left (step_unfixed c) sch init.
 
 (* ------------------------------------------------------------------ observation for the correspondence check *)
 Definition pc_code (p : pc) : nat * nat :=
@@ -162,13 +236,30 @@ Definition pc_code (p : pc) : nat * nat :=
   | Idle => (0, 0) | AtRead => (1, 0) | AtSetup => (2, 0) | InSetup => (3, 0)
   | AtStore o => (4, o) | AtAppend o => (5, o) | AtReturn o => (6, o)
   end.
-Definition td_code (d : tdpc) : nat :=
-  match d with TdNotCalled => 0 | TdFor _ => 1 | TdBody _ _ => 2 | TdDone => 3 | TdRaised => 4 end.
+(* line about to be executed by teardown_factory (0 = not called; 10/11/12 = returned / raised first_failure / left by a
+   BaseException), the local first_failure (for 11/12: the exception that left the function), the loop variable obj *)
+Definition td_code (d : tdpc) : nat * option obj * option obj :=
+  match d with
+  | TdNotCalled => (0, None, None)
+  | TdInit => (1, None, None)
+  | TdFor _ ff => (2, ff, None)
+  | TdTry _ o ff => (3, ff, Some o)
+  | TdBody _ o ff => (4, ff, Some o)
+  | TdExcept _ o ff => (5, ff, Some o)
+  | TdExceptBase o ff => (5, ff, Some o)
+  | TdIfNone _ o ff => (6, ff, Some o)
+  | TdAssign _ o => (7, None, Some o)
+  | TdIfFinal ff => (8, ff, None)
+  | TdRaise e => (9, Some e, None)
+  | TdDone => (10, None, None)
+  | TdRaised e => (11, Some e, None)
+  | TdAborted o => (12, Some o, None)
+  end.
 
 Record observation := {
   o_setup_calls : list tid; o_created : list (tid * obj); o_failed : list tid;
   o_accesses : list (tid * option obj); o_torn : list obj; o_objects : list obj;
-  o_td : nat; o_pcs : list (nat * nat); o_locals : list (option obj)
+  o_td : nat * option obj * option obj; o_pcs : list (nat * nat); o_locals : list (option obj)
 }.
 (* logs in chronological order; pcs/locals of threads 0..n-1 *)
 Definition observe (n : nat) (s : state) : observation :=
@@ -177,7 +268,9 @@ Definition observe (n : nat) (s : state) : observation :=
      o_pcs := map (fun t => pc_code (pcs s t)) (seq 0 n); o_locals := map (locals s) (seq 0 n) |}.
 
 (* configuration from finite tables (used by the case files) *)
-Definition cfg_of (sf : list (tid * nat)) (tf : list obj) : cfg :=
+(* sf: (thread, attempt) pairs whose setup_object raises; tf: objects whose teardown_object raises an Exception;
+   tb: objects whose teardown_object raises a BaseException that is not an Exception *)
+Definition cfg_of (sf : list (tid * nat)) (tf tb : list obj) : cfg :=
   {| setup_fails := fun t k => existsb (fun p => Nat.eqb (fst p) t && Nat.eqb (snd p) k) sf;
-     td_fails := fun o => existsb (Nat.eqb o) tf |}.
-Definition no_failure : cfg := cfg_of [] [].
+     td_outcome := fun o => if existsb (Nat.eqb o) tb then TdBaseExc else if existsb (Nat.eqb o) tf then TdExc else TdOk |}.
+Definition no_failure : cfg := cfg_of [] [] [].
